@@ -15,9 +15,11 @@
 
    Outside the domain, with witnesses: F25 (addresses that are not
    addr_simple), [C14_addr_special_refused] (addr_simple but refused by the
-   server's path parser), [C14_orcpt_unicode_space_refuted] (ORCPT in the
-   unitext form containing non-ASCII Unicode white space),
-   [C14_auth_brackets_refuted] (Auth = "<>"). *)
+   server's path parser), [C14_auth_brackets_refuted] (Auth = "<>").
+   ORCPT=UTF-8 holds for every text over U+0020..U+007F and the non-ASCII
+   scalar values in BOTH forms: the unitext form embeds the non-ASCII
+   White_Space code points ([C14_orcpt_unicode_space_ex]; sending them raw
+   was finding F29). *)
 From Smtp Require Import Bytes GoStrings Utf8 Xtext Parse Reply Rfc3339 Conn
                          Utf8Proofs XtextProofs ReplyProofs
                          C14Time C14Rfc3339 C14Param C14Line C14Unitext.
@@ -754,14 +756,12 @@ Definition rcpt_toks ext o : list bytes := map tok_of (rcpt_kvs ext o).
 Definition rrvs_set (o : rcpt_opts) : Prop :=
   match ro_rrvs o with Some t => Client.rt_is_zero t = false | None => False end.
 
-Definition rcpt_dom (ext : option Client.extmap) (o : rcpt_opts) : Prop :=
+Definition rcpt_dom (o : rcpt_opts) : Prop :=
   (ro_notify o = [] \/ notify_ok (ro_notify o) = true)
   /\ (ro_orcpt o = []
       \/ (ro_orcpt_type o = bs "RFC822" /\ is_printable_ascii (ro_orcpt o) = true)
       \/ (ro_orcpt_type o = bs "UTF-8"
-          /\ exists cs, ro_orcpt o = utf8_of_runes cs /\ forallb addr_cp cs = true
-             /\ (Client.has_ext ext (bs "SMTPUTF8") = true ->
-                 ws_free (encode_utf8_addr_unitext (ro_orcpt o)) = true)))
+          /\ exists cs, ro_orcpt o = utf8_of_runes cs /\ forallb addr_cp cs = true))
   /\ match ro_rrvs o with
      | Some t => Client.rt_is_zero t = true \/ rt_dom t
      | None => True
@@ -781,7 +781,7 @@ Ltac fin :=
   reflexivity.
 
 Lemma client_rcpt_toks ext o :
-  rcpt_dom ext o -> rcpt_ext ext o ->
+  rcpt_dom o -> rcpt_ext ext o ->
   Client.rcpt_params ext (Some o) = inl (rcpt_toks ext o).
 Proof.
   intros (Hn & Ho & Hr) (Hd & Hv).
@@ -846,7 +846,7 @@ Proof.
 Qed.
 
 Lemma rcpt_kv_facts cfg ext o kv :
-  rcpt_dom ext o -> rcpt_srv cfg o -> In kv (rcpt_kvs ext o) ->
+  rcpt_dom o -> rcpt_srv cfg o -> In kv (rcpt_kvs ext o) ->
   tok_kv (tok_of kv) (fst kv) (snd kv) /\ tok_ok (tok_of kv)
   /\ sets_rcpt cfg (seen_rcpt o) (fst kv) (snd kv).
 Proof.
@@ -871,7 +871,7 @@ Proof.
     destruct (ro_orcpt o) as [|a0 a] eqn:R; [destruct Hin|]. destruct Hin as [<-|[]].
     assert (Hd : cf_dsn cfg = true) by (apply Sd; right; discriminate).
     unfold orcpt_value.
-    destruct Ho as [Ho|[[Ht Hp]|(Ht & cs & Hcs & Ha & Hw)]]; [discriminate| |].
+    destruct Ho as [Ho|[[Ht Hp]|(Ht & cs & Hcs & Ha)]]; [discriminate| |].
     + rewrite Ht, R. change (bytes_eqb (bs "RFC822") (bs "RFC822")) with true. cbv iota.
       pose proof (encode_xtext_xtch (a0 :: a)) as Hx. try rewrite R in Hp. split; [|split].
       * repeat split; try reflexivity. left. split; [|split; [intros E; cbn in E; discriminate E|reflexivity]].
@@ -883,10 +883,10 @@ Proof.
       * intros o'. cbn [fst snd]. rewrite C14_orcpt_rfc822 by (assumption || discriminate).
         unfold ro_merge, seen_rcpt, set_orcpt. cbn. now rewrite R, Ht.
     + rewrite Ht, R. change (bytes_eqb (bs "UTF-8") (bs "RFC822")) with false. cbv iota.
-      try rewrite R in Hcs. try rewrite R in Hw.
+      try rewrite R in Hcs.
       assert (Hne : cs <> []) by (intros ->; discriminate).
       destruct (Client.has_ext ext (bs "SMTPUTF8")) eqn:U.
-      * specialize (Hw eq_refl). split; [|split].
+      * pose proof (unitext_ws_free cs Ha) as Hw. rewrite <- Hcs in Hw. split; [|split].
         -- repeat split; try reflexivity. left. split; [|split; [intros E; cbn in E; discriminate E|reflexivity]].
            cbn [fst snd]. rewrite mem_byte_app, unitext_no_eq. reflexivity.
         -- split; [|discriminate]. tokof.
@@ -958,7 +958,7 @@ Theorem C14_rcpt_trip cfg ext c to opts :
   let o := match opts with Some o => o | None => ro_zero end in
   let ps := rcpt_toks ext o in
   addr_ok to = true ->
-  rcpt_dom ext o -> rcpt_srv cfg o -> rcpt_ext ext o -> rcpt_state_ok cfg c ->
+  rcpt_dom o -> rcpt_srv cfg o -> rcpt_ext ext o -> rcpt_state_ok cfg c ->
   (* the client returns no local error and writes exactly this line ... *)
   Client.rcpt_params ext opts = inl ps
   /\ exists arg,
@@ -1010,25 +1010,6 @@ Proof.
 Qed.
 
 Print Assumptions C14_rcpt_trip.
-
-(* ------------------------------------------------------------------ *)
-(* the domain of ORCPT=UTF-8 in terms of code points                   *)
-(* ------------------------------------------------------------------ *)
-
-(* text over U+0020..U+007F and the non-ASCII scalar values; when SMTPUTF8 was
-   negotiated (unitext form: non-ASCII sent raw) none of the non-ASCII
-   White_Space code points - see C14_orcpt_unicode_space_refuted *)
-Lemma orcpt_utf8_dom ext a cs :
-  a = utf8_of_runes cs -> forallb addr_cp cs = true ->
-  (Client.has_ext ext (bs "SMTPUTF8") = true ->
-   forallb (fun cp => negb (uspace_cp cp)) cs = true) ->
-  exists cs, a = utf8_of_runes cs /\ forallb addr_cp cs = true
-             /\ (Client.has_ext ext (bs "SMTPUTF8") = true ->
-                 ws_free (encode_utf8_addr_unitext a) = true).
-Proof.
-  intros -> Ha Hu. exists cs. split; [reflexivity|]. split; [exact Ha|].
-  intros H. apply unitext_ws_free; auto.
-Qed.
 
 (* ------------------------------------------------------------------ *)
 (* the client side: the line really is what Mail / Rcpt write          *)
@@ -1392,13 +1373,13 @@ Proof.
 Qed.
 
 Definition ro_ex : rcpt_opts :=
-  mkRO [bs "SUCCESS"; bs "DELAY"] (bs "UTF-8") (utf8_of_runes [233; 32; 92; 64; 8364]%N)
+  mkRO [bs "SUCCESS"; bs "DELAY"] (bs "UTF-8") (utf8_of_runes [8232; 233; 32; 92; 8195; 64; 8364; 160]%N)
        (Some (mkRT 1700000000 7 3600)).
 
 Example C14_rcpt_trip_ex :
-  addr_ok from_ex = true /\ rcpt_dom ext_all ro_ex /\ rcpt_srv cfg_all ro_ex
+  addr_ok from_ex = true /\ rcpt_dom ro_ex /\ rcpt_srv cfg_all ro_ex
   /\ rcpt_ext ext_all ro_ex /\ rcpt_state_ok cfg_all c_ready
-  /\ rcpt_dom ext_noutf8 ro_ex /\ rcpt_ext ext_noutf8 ro_ex /\ rcpt_srv cfg_noutf8 ro_ex
+  /\ rcpt_ext ext_noutf8 ro_ex /\ rcpt_srv cfg_noutf8 ro_ex
   (* unitext form *)
   /\ option_map rcpts (trip_rcpt cfg_all ext_all c_ready from_ex (Some ro_ex))
      = Some [(from_ex, seen_rcpt ro_ex)]
@@ -1407,16 +1388,15 @@ Example C14_rcpt_trip_ex :
      = Some [(from_ex, seen_rcpt ro_ex)]
   /\ Client.rcpt_params ext_all (Some ro_ex) <> Client.rcpt_params ext_noutf8 (Some ro_ex).
 Proof.
-  assert (D : forall ext, rcpt_dom ext ro_ex).
-  { intros ext. split; [right; reflexivity|]. split.
+  assert (D : rcpt_dom ro_ex).
+  { split; [right; reflexivity|]. split.
     - right. right. split; [reflexivity|].
-      apply (orcpt_utf8_dom ext _ [233; 32; 92; 64; 8364]%N); reflexivity.
+      exists [8232; 233; 32; 92; 8195; 64; 8364; 160]%N. split; reflexivity.
     - right. unfold rt_dom. cbn [rt_unix rt_off]. repeat split; try lia; reflexivity. }
-  split; [reflexivity|]. split; [apply D|].
+  split; [reflexivity|]. split; [exact D|].
   split. { split; intros _; reflexivity. }
   split. { split; intros _; vm_compute; reflexivity. }
   split. { repeat split; reflexivity. }
-  split; [apply D|].
   split. { split; intros _; vm_compute; reflexivity. }
   split. { split; intros _; reflexivity. }
   split; [vm_compute; reflexivity|]. split; [vm_compute; reflexivity|].
@@ -1511,23 +1491,35 @@ Theorem C14_addr_special_refused :
   /\ trip_mail cfg_all ext_all c_ready (bs "a,b@c") None = Some [syntax_mail].
 Proof. vm_compute. repeat split. Qed.
 
-(* NEW finding: with SMTPUTF8 negotiated the client writes non-ASCII code
-   points of an ORCPT=UTF-8 address raw (unitext); the server's
-   strings.TrimSpace / strings.Fields treat the non-ASCII White_Space code
-   points as separators.  A trailing U+00A0 is silently dropped; inside the
-   address it makes the server refuse the command with 500. *)
-Theorem C14_orcpt_unicode_space_refuted :
+(* formerly finding F29 (fixed): with SMTPUTF8 negotiated the client wrote
+   EVERY non-ASCII code point of an ORCPT=UTF-8 address raw (unitext form), and
+   the server's strings.TrimSpace / strings.Fields took the non-ASCII
+   White_Space code points for separators (a trailing U+00A0 was silently
+   dropped; inside the address it made the server refuse the command with
+   500).  They are embedded now: each of the nineteen code points, at the
+   start, inside and at the end of the address, arrives unchanged in both
+   forms - instances of C14_rcpt_trip, computed. *)
+Example C14_orcpt_unicode_space_ex :
   let nbsp := [b 194; b 160] in
-  option_map rcpts (trip_rcpt cfg_all ext_all c_ready (bs "r@s")
-                      (Some (mkRO [] (bs "UTF-8") (bs "x@y" ++ nbsp) None)))
-  = Some [(bs "r@s", mkRO [] (bs "UTF-8") (bs "x@y") None)]
+  Client.rcpt_params ext_all (Some (mkRO [] (bs "UTF-8") (bs "x@y" ++ nbsp) None))
+  = inl [bs "ORCPT=UTF-8;x@y\x{A0}"]
+  /\ option_map rcpts (trip_rcpt cfg_all ext_all c_ready (bs "r@s")
+                         (Some (mkRO [] (bs "UTF-8") (bs "x@y" ++ nbsp) None)))
+     = Some [(bs "r@s", mkRO [] (bs "UTF-8") (bs "x@y" ++ nbsp) None)]
   /\ option_map rcpts (trip_rcpt cfg_all ext_all c_ready (bs "r@s")
                          (Some (mkRO [] (bs "UTF-8") (bs "x" ++ nbsp ++ bs "y@z") None)))
-     = Some []
-  (* the xtext form (no SMTPUTF8) is not affected *)
+     = Some [(bs "r@s", mkRO [] (bs "UTF-8") (bs "x" ++ nbsp ++ bs "y@z") None)]
   /\ option_map rcpts (trip_rcpt cfg_noutf8 ext_noutf8 c_ready (bs "r@s")
                          (Some (mkRO [] (bs "UTF-8") (bs "x@y" ++ nbsp) None)))
-     = Some [(bs "r@s", mkRO [] (bs "UTF-8") (bs "x@y" ++ nbsp) None)].
+     = Some [(bs "r@s", mkRO [] (bs "UTF-8") (bs "x@y" ++ nbsp) None)]
+  /\ forallb (fun cp =>
+        let o := mkRO [] (bs "UTF-8") (utf8_of_runes [cp; 120; cp; 64; 121; cp]%N) None in
+        let arrives cfg ext :=
+          match option_map rcpts (trip_rcpt cfg ext c_ready (bs "r@s") (Some o)) with
+          | Some [(to, o')] => bytes_eqb to (bs "r@s") && CheckTrip.ro_matches o o'
+          | _ => false
+          end in
+        arrives cfg_all ext_all && arrives cfg_noutf8 ext_noutf8) uspace_cps = true.
 Proof. vm_compute. repeat split. Qed.
 
 (* MailOptions.Auth = "<>" (the two characters) is written as AUTH=<> and
